@@ -172,7 +172,8 @@ def _run(case):
     nf = sum(1 for e in ev if e["ev"] == "fwd")
     h = min(max(halt, 0), T)
     vals = [H.field_fp(out.fields.E), fps[h][0], H.field_fp(out.fields.H), fps[h][1], H.det_fp(out.detector_states), fps[h][2]]
-    mE, mH, mD = (max(abs(vals[0]), abs(vals[1])), max(abs(vals[2]), abs(vals[3])), max(abs(vals[4]), abs(vals[5])))
+    # scale = sum |x||w| (rounding-noise scale of the functional), float32 run: tolerance 2e-5 of that scale
+    mE, mH, mD = H.field_scale(out.fields.E), H.field_scale(out.fields.H), H.det_scale(out.detector_states)
     sc = lambda v, m: int(round(1e8 * v / m)) if m > 0 else 0  # noqa: E731
     rec = dict(case)
     rec.pop("frac")
